@@ -246,7 +246,7 @@ func init() {
 	Register(&Engine{
 		ID:       "C01",
 		Anchors:  []string{"node.go:matchChildren", "segment.go:Segment.Match", "tree.go:Handler", "router.go:serveContext"},
-		Cases:    func(t string) int { return map[string]int{"quick": 6000, "thorough": 160000}[t] },
+		Cases:    func(t string) int { return map[string]int{"quick": 20000, "thorough": 1200000}[t] },
 		Run:      runC01,
 		Directed: c01Directed,
 		Rule: "case = Handle/Remove/Clean/Prefix.Clean history (8-40 ops, router or facade) over a hostile pool of 6-28 patterns, with bursts of 30-60 requests (paths instantiated from live and dead patterns with tricky values, mutated, raw bytes; all methods) after every 6th op; evaluation = one CallFunc observation checked by the conformance monitor; " +
